@@ -150,9 +150,9 @@ pub mod verif {
 	pub use crate::{
 		config::{interpret_command_args_verif as interpret_command_args, make_config},
 		dirs::{ignores, project_origin, vcs_types},
-		emits::{emits_to_environment, events_to_simple_format},
+		emits::{emits_to_environment, emits_to_file, events_to_simple_format},
 		filterer::WatchexecFilterer,
-		state::{new as new_state, State},
+		state::{new as new_state, RotatingTempFile, State},
 	};
 
 	/// Parse an argv vector and normalise it exactly as `get_args` does (minus logging setup
